@@ -73,6 +73,19 @@ func (x *Exec) callValue(fr *Frame, st *State, c *ssa.CallCommon, fv Value, args
 }
 
 func (x *Exec) invoke(fr *Frame, st *State, c *ssa.CallCommon, recv Value, args []Value, pos token.Pos) []Outcome {
+	if n, ok := recv.T.(*types.Named); ok && n.Obj().Pkg() != nil {
+		for _, pre := range noEffectPkgs {
+			if p := n.Obj().Pkg().Path(); p == pre || strings.HasPrefix(p, pre) {
+				// logging / metrics interfaces: no effect on verified state, nil receivers not considered
+				var rets []Value
+				for i := 0; i < c.Signature().Results().Len(); i++ {
+					rets = append(rets, x.freshValue(st, "noeff", c.Signature().Results().At(i).Type()))
+				}
+				x.c.note("A-log: calls into logging/metrics packages have no effect on verified state")
+				return []Outcome{{St: st, Kind: OutReturn, Rets: rets}}
+			}
+		}
+	}
 	x.oblige(fr, st, "nil", x.src(fr.fn, pos, "invoke")+"(recv)", pos, Not(Eq(recv.L[0], IntLit(0))))
 	st.assume(Not(Eq(recv.L[0], IntLit(0))))
 	// dynamic type known?
@@ -96,6 +109,40 @@ func (x *Exec) invoke(fr *Frame, st *State, c *ssa.CallCommon, recv Value, args 
 				rv := x.unbox(st, recv, dyn)
 				return x.callFn(fr, st, fn, append([]Value{rv}, args...), nil, pos)
 			}
+		}
+	}
+	// dynamic type unknown: case split over the in-module concrete types seen so far that implement the
+	// interface, plus a residual case handled abstractly
+	if it, ok := recv.T.Underlying().(*types.Interface); ok && !recv.L[0].IsLit && fr.depth < x.maxInline {
+		var cands []int
+		for id := 1; id < len(x.c.tagTypes); id++ {
+			T := x.c.tagTypes[id]
+			if T == errPseudoType || !types.Implements(T, it) {
+				continue
+			}
+			if sel := x.prog.MethodSets.MethodSet(T).Lookup(c.Method.Pkg(), c.Method.Name()); sel != nil {
+				if fn := x.prog.MethodValue(sel); fn != nil && inModule(fn) && len(fn.Blocks) > 0 {
+					cands = append(cands, id)
+				}
+			}
+		}
+		if len(cands) > 0 && len(cands) <= 4 {
+			var outs []Outcome
+			var notAny []*Term
+			for _, id := range cands {
+				T := x.c.tagTypes[id]
+				s2 := st.clone()
+				s2.assume(Eq(recv.L[0], IntLit(int64(id))))
+				notAny = append(notAny, Not(Eq(recv.L[0], IntLit(int64(id)))))
+				fn := x.prog.MethodValue(x.prog.MethodSets.MethodSet(T).Lookup(c.Method.Pkg(), c.Method.Name()))
+				rv := x.unbox(s2, recv, T)
+				outs = append(outs, x.callFn(fr, s2, fn, append([]Value{rv}, args...), nil, pos)...)
+			}
+			st.assume(And(notAny...))
+			name := "(" + typeName(recv.T) + ")." + c.Method.Name()
+			x.logCall(st, name, append([]Value{recv}, args...))
+			outs = append(outs, x.unknownCall(fr, st, "interface method "+name, c.Signature(), append([]Value{recv}, args...), false)...)
+			return outs
 		}
 	}
 	// interface method contract?
